@@ -43,6 +43,9 @@ pub struct BitMachine {
     write: Vec<Frame>,
     /// Acceptable source type
     source_ty: Arc<Final>,
+    /// High-water marks: (cells = max of `next_frame_start`, frames = max of read + write stack depth)
+    #[cfg(feature = "verif-hooks")]
+    verif_high_water: (usize, usize),
 }
 
 impl BitMachine {
@@ -57,7 +60,18 @@ impl BitMachine {
             read: Vec::with_capacity(program.bounds().extra_frames + analysis::IO_EXTRA_FRAMES),
             write: Vec::with_capacity(program.bounds().extra_frames + analysis::IO_EXTRA_FRAMES),
             source_ty: program.arrow().source.clone(),
+            #[cfg(feature = "verif-hooks")]
+            verif_high_water: (0, 0),
         })
+    }
+
+    /// High-water marks reached so far: (cells, frames). Capacity is (8 * data bytes, frame stack capacity).
+    #[cfg(feature = "verif-hooks")]
+    pub fn verif_high_water(&self) -> ((usize, usize), (usize, usize)) {
+        (
+            self.verif_high_water,
+            (self.data.len() * 8, self.read.capacity()),
+        )
     }
 
     #[cfg(test)]
@@ -89,6 +103,14 @@ impl BitMachine {
 
         self.write.push(Frame::new(self.next_frame_start, len));
         self.next_frame_start += len;
+        #[cfg(feature = "verif-hooks")]
+        {
+            self.verif_high_water.0 = self.verif_high_water.0.max(self.next_frame_start);
+            self.verif_high_water.1 = self
+                .verif_high_water
+                .1
+                .max(self.write.len() + self.read.len());
+        }
     }
 
     /// Move the active write frame to the read frame stack
